@@ -273,6 +273,17 @@ def random_scripts(seed, n):
 
 
 # ------------------------------------------------------------------ running
+def save_replay_text(pid, text, ext="scr"):
+    fn = getattr(vlib, "save_replay_text", None)
+    if fn:
+        return fn(pid, text, ext)
+    os.makedirs(os.path.join(vlib.OUT, "replay"), exist_ok=True)
+    p = os.path.join(vlib.OUT, "replay", "%s-%s.%s" % (pid, vlib.sha(text)[:10], ext))
+    with open(p, "w") as f:
+        f.write(text)
+    return p
+
+
 def script_id(s):
     return s.split("\n", 1)[0].split()[1]
 
@@ -354,18 +365,27 @@ def run(pid, tier, seed, replay=None):
             if rules:
                 bad[v["id"]] = rules
         # a violation counts when a second run of the same script shows it again
+        # (at most one script per distinct rule set x mode, 60 in total)
+        pick, keys = [], set()
         for sid, rules in bad.items():
-            tf2 = run_scripts(exe, [idx[sid]], sc, "confirm-" + re.sub(r"\W", "_", sid))
-            v2, _ = validate(tf2, sc)
-            again = set(v2[0]["viols"]) if v2 else set()
-            for r in rules:
-                if r in again:
-                    p = vlib.save_replay_text(pid, idx[sid])
-                    rep.violation(r, p, "script %s (mode/transport: %s)" % (sid, idx[sid].split("\n", 1)[0][2:]))
-                else:
-                    vlib.log("C17: %s in script %s not reproduced on the second run" % (r, sid))
-            if len(rep.viol) >= 40:
+            key = (tuple(sorted(rules)), idx[sid].split("\n", 1)[0].split()[2])
+            if key not in keys or len(pick) < 12:
+                keys.add(key)
+                pick.append(sid)
+            if len(pick) >= 60:
                 break
+        if pick:
+            tf2 = run_scripts(exe, [idx[sid] for sid in pick], sc, "confirm")
+            v2, _ = validate(tf2, sc)
+            again = {v["id"]: set(v["viols"]) for v in v2}
+            for sid in pick:
+                for r in bad[sid]:
+                    if r in again.get(sid, ()):
+                        p = save_replay_text(pid, idx[sid])
+                        rep.violation(r, p, "script %s (%s); %d scripts violate in this run"
+                                      % (sid, idx[sid].split("\n", 1)[0][2:], len(bad)))
+                    else:
+                        vlib.log("C17: %s in script %s not reproduced on the second run" % (r, sid))
         for sid, d in drift[:10]:
             print("DRIFT property=%s script=%s %s" % (pid, sid, d), flush=True)
         nosplice = ends.get("nosplice", 0)
